@@ -9,7 +9,11 @@
 (* in verificationMethod + assertionMethod; key-2 = K2, in                 *)
 (* verificationMethod + authentication; a revocation service) and, in some *)
 (* rows, `other` (a different DID that lists key-1 = the SAME key K1,      *)
-(* verificationMethod only).  `stranger` has no document.                  *)
+(* verificationMethod only).  `stranger` has no document.  The issuer      *)
+(* document additionally LISTS a foreign method `other#key-3` (key K2): a  *)
+(* decoy -- it is a method of no trusted document's own DID, so no kid or  *)
+(* configured method id may ever select it (a lookup by fragment alone, or *)
+(* by DID alone, would).                                                   *)
 (***************************************************************************)
 EXTENDS Integers, Sequences, FiniteSets, TLC, Json
 
@@ -17,7 +21,7 @@ VARIABLES row, out
 vars == <<row, out>>
 
 Dids == {"issuer", "other", "stranger"}
-Frags == {"key-1", "key-2", "missing"}
+Frags == {"key-1", "key-2", "key-3", "missing"}
 NoMethod == [did |-> "none", frag |-> "none"]
 MethodIds == [did : Dids, frag : Frags]
 Nonces == {"absent", "a", "b"}
@@ -86,6 +90,16 @@ UErrors(r) ==
         THEN {"subject_holder"} ELSE {})
   \cup StatusError(r)
 
+\* ------------------------------- crafted claim sets: where the dates are stated -------------------------------
+\* The library's own tokens state expiry in `exp` and issuance in `nbf`.  A third-party token may (also) state them inside
+\* `vc`; the registered claim is authoritative and a `vc` copy must agree with it, otherwise the token is malformed.
+CRows == [phase : {"C"},
+          exp_at : {"claim", "vc_only", "both_equal", "both_differ"}, expiry : {"-1", "1"},
+          iss_at : {"nbf", "iat", "vc_only", "nbf_vc_equal", "nbf_vc_differ"}, issuance : {0, 1}]
+CErrors(r) ==
+  IF r.exp_at \in {"vc_only", "both_differ"} \/ r.iss_at \in {"vc_only", "nbf_vc_differ"} THEN {"structure"}
+  ELSE (IF r.issuance > 0 THEN {"issuance_date"} ELSE {}) \cup (IF r.expiry = "-1" THEN {"expiration_date"} ELSE {})
+
 \* ------------------------------- both phases: one failing condition in each -------------------------------
 XRows == [phase : {"X"}, s_fail : {"nonce", "signature", "scope", "identifier", "kid_fragment", "foreign"},
           u_fail : {"issuance", "expiry", "structure", "subject_holder", "revoked"}, fail_fast : {"FirstError", "AllErrors"}]
@@ -96,9 +110,10 @@ SetToSeq(S) == IF S = {} THEN <<>> ELSE LET x == CHOOSE x \in S : TRUE IN <<x>> 
 Evaluate(r) ==
   CASE r.phase = "S" -> [accept |-> SErrors(r) = {}, phase |-> "S", errs |-> SetToSeq(SErrors(r))]
     [] r.phase = "U" -> [accept |-> UErrors(r) = {}, phase |-> "U", errs |-> SetToSeq(UErrors(r))]
+    [] r.phase = "C" -> [accept |-> CErrors(r) = {}, phase |-> "C", errs |-> SetToSeq(CErrors(r))]
     [] r.phase = "X" -> [accept |-> FALSE, phase |-> "S", errs |-> <<>>]   \* rejected in the signature phase, whatever the unit phase
 
-Init == row \in SRows \cup URows \cup XRows /\ out = Evaluate(row)
+Init == row \in SRows \cup URows \cup CRows \cup XRows /\ out = Evaluate(row)
 Next == UNCHANGED vars
 Spec == Init /\ [][Next]_vars
 
@@ -113,6 +128,9 @@ UAcceptMeans ==
   (row.phase = "U" /\ out.accept) =>
      /\ row.issuance <= 0 /\ row.expiry # "-1" /\ row.structure = "ok"
      /\ (row.status = "revoked" => row.status_mode = "SkipAll")
+
+\* however the dates are carried, an accepted token is unexpired and already issued
+CAcceptMeans == (row.phase = "C" /\ out.accept) => (row.expiry # "-1" /\ row.issuance <= 0)
 
 Emit == PrintT(<<"CASE", ToJson([row |-> row, out |-> out])>>)
 =============================================================================
